@@ -392,7 +392,7 @@ impl Installer for SimInstaller {
     ) -> LocalBoxFuture<'a, (u32, Vec<AppInstallResult<SimErr>>)> {
         let w = self.w.clone();
         async move {
-            let (progress, results, gated, token) = {
+            let (progress, results, gated, token, detach) = {
                 let mut g = lock(&w);
                 if g.interact() {
                     drop(g);
@@ -403,14 +403,23 @@ impl Installer for SimInstaller {
                 let cs = g.script.checks.get(plan.check).cloned().unwrap_or_default();
                 let mut results = cs.results.clone();
                 results.resize(plan.offered, InstRes::Installed);
-                (cs.progress, results, g.script.gated.install, plan.check as u32)
+                (cs.progress, results, g.script.gated.install, plan.check as u32, cs.detach_last_progress)
             };
-            for p in progress {
+            let n_progress = progress.len();
+            for (pi, p) in progress.into_iter().enumerate() {
                 if gated {
                     let (_, gate) = GateFut::new(&w, GateKind::Install("step"));
                     gate.await;
                 }
                 lock(&w).push(Ev::ProgressSent(p.to_bits()));
+                if detach && pi + 1 == n_progress {
+                    // fire and forget: the value is handed over, the report future is dropped
+                    if let Some(o) = observer {
+                        let mut f = o.receive_progress(None, p, None, None);
+                        let _ = futures::poll!(&mut f);
+                    }
+                    continue;
+                }
                 if let Some(o) = observer {
                     o.receive_progress(None, p, None, None).await;
                 }
